@@ -37,9 +37,9 @@ import (
 	redigo "github.com/garyburd/redigo/redis"
 )
 
-var c20Answers = []string{"connect-error", "command-error", "no-role-line", "slave", "slave-late-line", "master", "master-late-line"}
+var c20Answers = []string{"connect-error", "command-error", "command-error-noauth", "no-role-line", "slave", "slave-late-line", "master", "master-late-line"}
 
-func c20IsMaster(a int) bool { return a >= 5 }
+func c20IsMaster(a int) bool { return strings.HasPrefix(c20Answers[a], "master") }
 
 type c20Conn struct{ answer int }
 
@@ -49,6 +49,9 @@ func (c *c20Conn) Do(cmd string, args ...interface{}) (interface{}, error) {
 	switch c20Answers[c.answer] {
 	case "command-error":
 		return nil, errors.New("ERR unknown command 'info'")
+	case "command-error-noauth":
+		// a node whose password differs from the configured one (the failed AUTH at connect goes unnoticed)
+		return nil, errors.New("NOAUTH Authentication required.")
 	case "no-role-line":
 		return "# Replication\r\nconnected_slaves:0\r\nmaster_replid:abc\r\n", nil
 	case "slave":
